@@ -48,7 +48,7 @@ def plan(tier, seed):
 
 def mandatory(tier):
     out = [f"loss/{n}" for n in POINTWISE + ["ncc_loss", "lcc_loss", "wlcc_loss", "mi_loss", "nmi_loss", "dice", "tversky"]]
-    out += [f"mask_shape/{m}" for m in MASK_SHAPES] + ["modules", "D/2", "D/3", "dice/absent_label"]
+    out += [f"mask_shape/{m}" for m in MASK_SHAPES] + ["modules", "D/2", "D/3", "dice/absent_label", "wlcc/source_target_masks"]
     return out
 
 
@@ -191,6 +191,19 @@ def run_item(ctx, item):
             with ctx.guard("wlcc(ones)", key="exc/wlcc_loss/ones", **info):
                 ones = torch.ones(shape)
                 close("wlcc_with_unit_masks_equals_lcc", LF.wlcc_loss(x, y, source_mask=ones, target_mask=ones, kernel_size=ks, reduction="none"), LF.lcc_loss(x, y, kernel_size=ks, reduction="none"), "wlcc_loss/unit_masks", rel=1e-3)
+                # separate source / target masks (same tensors reused across calls, as a training loop does):
+                # symmetric under swapping both images and both masks, mean of 'none', same value on every call
+                sm = (torch.tensor(rng.uniform(size=shape)) < 0.8).float()
+                tm = (torch.tensor(rng.uniform(size=shape)) < 0.8).float()
+                ctx.bucket("wlcc/source_target_masks")
+                w_none = LF.wlcc_loss(x, y, source_mask=sm, target_mask=tm, kernel_size=ks, reduction="none")
+                w_mean = LF.wlcc_loss(x, y, source_mask=sm, target_mask=tm, kernel_size=ks)
+                w_swap = LF.wlcc_loss(y, x, source_mask=tm, target_mask=sm, kernel_size=ks)
+                w_again = LF.wlcc_loss(x, y, source_mask=sm, target_mask=tm, kernel_size=ks)
+                close("wlcc_two_masks_same_value_on_every_call", w_again, w_mean, "wlcc_loss/two_masks", rel=1e-6)
+                close("wlcc_two_masks_symmetric", w_swap, w_mean, "wlcc_loss/two_masks", rel=1e-4)
+                both = (sm * tm).expand_as(w_none)
+                close("wlcc_two_masks_mean_is_masked_mean_of_none", w_mean, w_none.double().sum() / both.double().sum() if float(both.sum()) > 0 else w_mean, "wlcc_loss/two_masks", rel=1e-4)
     # ------------------------------------------------------------------ MI / NMI
     x1, y1, z1 = x[:, :1].contiguous(), y[:, :1].contiguous(), z[:, :1].contiguous()
     bins = int(rng.choice([8, 16, 32]))
